@@ -7,7 +7,7 @@ cd "$WT" || exit 9
 export CARGO_TARGET_DIR=$WT/target CARGO_NET_OFFLINE=true
 FEAT=""
 grep -q "borsh" tests/demo_seed.rs 2>/dev/null && FEAT="--features borsh"
-git stash push src -q 2>/dev/null
+git checkout -- src 2>/dev/null
 git apply patch.diff || { echo "patch does not apply in worktree"; exit 9; }
 T=$(cargo test --offline --lib 2>&1 | grep "test result" | head -1)
 echo "existing tests with patch: $T"
